@@ -1,2 +1,2 @@
-import NumbatModel.Driver.QtyCommon
-def main : IO Unit := NumbatModel.Driver.runDriver ({} : NumbatModel.DriverQty.St) NumbatModel.DriverQty.step
+import NumbatModel.Driver.QtyProg
+def main : IO Unit := NumbatModel.Driver.runDriver ({} : NumbatModel.DriverQty.St) NumbatModel.DriverQty.stepProg
